@@ -7,3 +7,5 @@ func raceOn()  {}
 
 // RaceBuild reports whether the binary was built with -race.
 const RaceBuild = false
+
+func raceErrors() int { return 0 }
